@@ -170,7 +170,12 @@ func mathMod(L *LState) int {
 }
 
 func mathModf(L *LState) int {
-	v1, v2 := math.Modf(float64(L.CheckNumber(1)))
+	x := float64(L.CheckNumber(1))
+	v1, v2 := math.Modf(x)
+	if math.IsInf(x, 0) {
+		// C's modf: the fractional part of an infinity is a zero of the same sign
+		v2 = math.Copysign(0, x)
+	}
 	L.Push(LNumber(v1))
 	L.Push(LNumber(v2))
 	return 2
